@@ -307,6 +307,14 @@ fn patch_info(font: &FontRef, abs: &AbsFont, src: &str, entry: usize) -> Result<
 }
 
 pub fn main(args: &[String]) {
+    if let Some(cases) = arg_after(args, "--cff-cases") {
+        let mut rep = Report::default();
+        let mut ev = vec![];
+        crate::c18_cff::replay(&cases, &mut ev, &mut rep);
+        rep.traces = ev.len() as u64;
+        fvcore::write_ndjson(&arg_after(args, "--out").expect("--out"), &ev);
+        rep.finish();
+    }
     let graph = arg_after(args, "--graph").expect("--graph");
     let cat: Value = serde_json::from_str(&std::fs::read_to_string(arg_after(args, "--catalogue").expect("--catalogue")).unwrap()).unwrap();
     let mut rep = Report::default();
